@@ -144,6 +144,14 @@ where
         ctx.check(rt == ta.not(), &format!("{k}:not"), || format!("order {order:?} not {ta} = {rt}"));
         let r2 = f.clone().not_owned().unwrap();
         ctx.check(r2 == r, &format!("{k}:not_owned"), || format!("order {order:?} f={ta}"));
+        // documented: "Should there be a decision node for a variable not part of the domain, then
+        // `false` is used as the decision value": pass only the variables that are true
+        for asg in 0..8usize {
+            let got = f.eval((0..n).filter(|v| (asg >> v) & 1 == 1).map(|v| (v, true)));
+            ctx.check(got == ta.get(asg), &format!("{k}:eval:unassigned-variable-not-false"), || {
+                format!("order {order:?} f={ta}: eval with only the true variables of assignment {asg:03b} given = {got}")
+            });
+        }
         ctx.check(f.satisfiable() == !ta.is_zero(), &format!("{k}:satisfiable"), || format!("f={ta}"));
         ctx.check(f.valid() == ta.is_one(), &format!("{k}:valid"), || format!("f={ta}"));
 
